@@ -29,7 +29,11 @@ type Truth struct {
 	// not include the run (expired, or not yet valid): nothing from it can validate.
 	Bogus    bool
 	Wildcard bool
-	Loop     bool
+	// Spoofable: the name is not an owner of its zone and the zone's NSEC3 chain is
+	// opt-out, so an insecure delegation can be claimed at it: nothing about it is
+	// authenticated (RFC 5155 §12.2), whether truth is NXDOMAIN or a wildcard match.
+	Spoofable bool
+	Loop      bool
 }
 
 // zonePath returns the zones from the root down to the zone authoritative for
@@ -160,6 +164,9 @@ func (z *Zone) step(name string, qtype uint16, t *Truth) (kind string, next stri
 	wild := "*." + ce
 	if ce == "." {
 		wild = "*."
+	}
+	if z.Signed && z.NSEC3 && z.OptOut {
+		t.Spoofable = true
 	}
 	if wt, ok := z.Nodes[wild]; ok && z.cutFor(wild) == nil {
 		t.Wildcard = true
